@@ -779,6 +779,12 @@ func (cpu *CPU) Step() (int, bool) {
 	}
 	cpu.Interrupt = interruptNone
 
+	// invoke the callback registered for the instruction that is about to be fetched
+	// (after interrupt dispatch, which may have moved PC):
+	if cb, ok := cpu.OnPC[uint32(cpu.RK)<<16|uint32(cpu.PC)]; ok {
+		cb()
+	}
+
 	cpu.PPC = cpu.PC
 	cpu.PRK = cpu.RK
 	opcode := cpu.Bus.nRead(cpu.RK, cpu.PC)
